@@ -587,6 +587,46 @@ def check_dict_feedback(chk, rng):
     chk.notes["dictionary_feedback_scenarios"] = len(scns)
 
 
+def check_passive_loop_next_to_active_twin(chk, rng):
+    """the loop is closed through a PASSIVE reader of the feedback while the very same definition over the same sources
+    (same scalars: `sameas`) is also wired with an active read - a monitor outside the loop.  The loop must still become
+    quiescent; the monitor follows every feedback tick.  (Dataflow.tla: sample2 = sum2 with a passive second input.)"""
+    progs, scns = [], []
+    for k in range(24 if chk.tier == "quick" else 300):
+        horizon = rng.choice([6, 8])
+        s1 = P.gen_script(rng, horizon, maxlen=3)
+        init = rng.choice([-1, 0, 4])
+        nodes = [P.node("src", script=s1), P.node("fb", init=init), P.node("sum2", ins=[1, 2]), P.node("sample2", ins=[1, 2]),
+                 P.node("rec", ins=[3]), P.node("rec", ins=[4])]
+        nodes[1]["bind"] = 4
+        p = P.program(9800 + k, nodes, start=1, end=horizon + 1)
+        progs.append(p)
+        lines = ["scn ploop%d" % k, "opt start=1 end=%d" % (horizon + 1), "graph root", "n 1 src script=" + ";".join("%d:%d" % (t, v) for t, v in s1),
+                 "n 2 fb" + (" init=%d" % init if init != -1 else ""), "n 3 sum2 in=1,2", "n 4 sum2 in=1,p:2 sameas=3", "n 5 rec in=3", "n 6 rec in=4",
+                 "bind 2 4", "endgraph", "run"]
+        if rng.random() < 0.5:     # the passive usage first
+            lines[5], lines[6] = "n 4 sum2 in=1,p:2", "n 3 sum2 in=1,2 sameas=4"
+        scns.append("\n".join(lines))
+    preds, res = dfcheck.predict(progs, tag="c08ploop")
+    chk.add_tlc(res, "passive-loop")
+    traces = hg.run_driver("engine", scns)
+    for p, scn, tr in zip(progs, scns, traces):
+        chk.count({"scn": scn})
+        if isinstance(tr, dict) or any(e["e"] in ("wirefail", "harnessfail") for e in tr):
+            chk.violation("ploop:run", "passive-loop scenario crashed or could not be wired", scn)
+            continue
+        # the two statements carry the same `id` scalar (sameas), so only the recorders tell them apart
+        w, cyc, errs, ret = P.observed(tr)
+        pw, _, _ = P.predicted(preds[p["id"]])
+        for rid, what in ((5, "the active monitor"), (6, "the passive reader closing the loop")):
+            if w.get(rid, []) != pw.get(rid, []):
+                chk.violation("ploop:stream", "a loop closed through a passive reader next to an active twin of the same definition: %s must "
+                              "see %s (Dataflow.tla), saw %s" % (what, pw.get(rid, []), w.get(rid, [])),
+                              "# C08 passive loop with an active twin\n" + scn + "\n")
+                break
+    chk.coverage["traces_validated_against_impl"] += len(scns)
+
+
 def check_map_feedback(chk, rng):
     """a feedback loop INSIDE every child of a map_: each key accumulates its own values through its own loop (passive
     reader); a delivery is due one step after the write - also when, in that cycle, the map is woken only by another
@@ -646,6 +686,7 @@ def check_c08(chk, rng):
     judge("C08", cases, verdicts, chk, ("C08.",), stream_is_mine=True)
     check_dict_feedback(chk, rng)
     check_map_feedback(chk, rng)
+    check_passive_loop_next_to_active_twin(chk, rng)
     quiet = 0
     for c in cases:
         if isinstance(c.events, dict):
